@@ -6,6 +6,7 @@
 package main
 
 import (
+	"encoding/hex"
 	"encoding/json"
 	"fmt"
 	"math/rand"
@@ -118,11 +119,22 @@ func cycle(c *vlib.Ctx, shapeName, mode string, anc, alpha, beta *core.Entry) ma
 		rec["plan2"] = encPlan(nil, nil, nil, nil)
 	}
 	rec["applied"] = applied
+	rec["deps"] = map[string]any{"alpha": encDeps(al), "beta": encDeps(be)}
 	c.Eval()
 	if len(al)+len(be)+len(conf)+len(ac) > 0 {
 		c.NonTrivial(rec["in"])
 	}
 	return rec
+}
+
+// encDeps records what core.TransitionDependencies asks to be staged for a list of transitions.
+func encDeps(ts []*core.Change) []any {
+	paths, digests := core.TransitionDependencies(ts)
+	out := []any{}
+	for i, p := range paths {
+		out = append(out, map[string]any{"path": vtree.Path(p), "d": hex.EncodeToString(digests[i])})
+	}
+	return out
 }
 
 // subTrees mirrors Entries!SubTrees: all prefix-closed parts of e, including nil.
